@@ -3190,6 +3190,107 @@ for _t, _d in _R5_FLOORS.items():
     FLOORS[_t]['monitors'].update(_d['M'])
     FLOORS[_t]['counters'].update(_d['C'])
 
+# Round-7 classes: BYTES documents with '#' comment lines ('cmt:*', 'cmt-find:*', M.cmt.* - the str control M.cmt.str.* and the
+# bytes parse M.cmt.*) and paragraphs built through the API whose patterns START with '.' or '/' ('lead:*', 'lead-find:*',
+# M.lead.*); also the totals those classes feed.  ~50% of the measured values (quick: minimum over seeds 0-3; thorough: seed
+# 0).  A run that never parses a bytes document with comments at each of the positions / through each of the source kinds,
+# or never builds a paragraph with each kind of leading characters, is INCONCLUSIVE, not held.
+_R7_FLOORS = {
+    'quick': {
+        'nontrivial': 340000,
+        'M': {
+            'M.match': 570000, 'M.error': 14000, 'M.stale': 14000, 'M.cmt.str.order': 810, 'M.cmt.str.files': 1900,
+            'M.cmt.str.find': 4300, 'M.cmt.order': 810, 'M.cmt.files': 1900, 'M.cmt.find': 4300, 'M.cmt.same': 4300,
+            'M.lead.files': 1800, 'M.lead.find': 6400, 'M.lead.reparse': 350, 'M.lead.reparse.find': 4700},
+        'C': {
+            'cmt-find:last-of-several-matching': 790, 'cmt-find:none-matches': 1400,
+            'cmt-find:one-paragraph-matches': 2000, 'cmt-find:resolves-to-paragraph-with-multi-line-files-field': 1200,
+            'cmt-find:several-paragraphs-match': 790, 'cmt:comment-lines': 6300, 'cmt:documents': 810,
+            'cmt:matches-observed/bytes-source': 10000, 'cmt:matches-observed/str-source': 10000,
+            'cmt:no-end-of-line-after-last-line': 110, 'cmt:pattern-containing-#-that-is-not-a-comment': 99,
+            'cmt:position:after-last-field-of-paragraph': 180, 'cmt:position:after-last-paragraph': 280,
+            'cmt:position:before-first-field-of-paragraph': 320, 'cmt:position:between-fields': 350,
+            'cmt:position:between-files-field-and-next-field': 230,
+            'cmt:position:comment-only-block-between-paragraphs': 870, 'cmt:position:commented-out-field-line': 620,
+            'cmt:position:commented-out-field-line-inside-files-field': 320, 'cmt:position:inside-files-field': 950,
+            'cmt:position:inside-other-multi-line-field': 99, 'cmt:position:top-of-file': 150,
+            'cmt:source:bytes-buffered': 45, 'cmt:source:bytes-gen': 96, 'cmt:source:bytes-iter': 40,
+            'cmt:source:bytes-list': 130, 'cmt:source:bytes-list-noeol': 44, 'cmt:source:bytes-tuple': 41,
+            'cmt:source:bytes-whole': 45, 'cmt:source:bytesio': 130, 'cmt:source:disk-rb': 130,
+            'cmt:source:disk-rb-raw': 44, 'cmt:strict': 520, 'cmt:strict=False': 260,
+            'lead-find:last-of-several-matching-through-pattern-starting-with-dot-or-slash': 350,
+            'lead-find:name-starting-with-dot-or-slash-resolves-to-none': 1600,
+            'lead-find:name-without-leading-dot-or-slash-resolves-to-a-paragraph': 320, 'lead-find:none-matches': 5600,
+            'lead-find:one-paragraph-matches': 4300, 'lead-find:resolves-through-pattern-starting-with-dot-or-slash': 1200,
+            'lead-find:several-paragraphs-match': 980, 'lead:documents': 350, 'lead:dump-returned': 160,
+            'lead:dump-written-to-file-object': 170, 'lead:handed-over-as:list': 600, 'lead:handed-over-as:tuple': 150,
+            'lead:matches-observed/after-dump-and-reparse': 11000, 'lead:matches-observed/built-through-api': 11000,
+            'lead:matches-observed/re-assigned': 4000, 'lead:name-starts-with:.': 670, 'lead:name-starts-with:..': 170,
+            'lead:name-starts-with:...': 210, 'lead:name-starts-with:../': 530, 'lead:name-starts-with:./': 720,
+            'lead:name-starts-with:/': 1100, 'lead:name-starts-with://': 250, 'lead:name-starts-with:other': 1000,
+            'lead:name:changed-by-reassignment': 150, 'lead:name:edited': 260, 'lead:name:fixed-probe': 620,
+            'lead:name:leading-characters-added': 980, 'lead:name:leading-characters-stripped': 1800,
+            'lead:name:whole-pattern': 950, 'lead:nontrivial': 10000, 'lead:oracle-cross-checked-with-distance-dp': 12000,
+            'lead:paragraph-via:assign': 110, 'lead:paragraph-via:assign-in-doc': 100, 'lead:paragraph-via:create': 550,
+            'lead:pattern-starts-with:.': 270, 'lead:pattern-starts-with:..': 53, 'lead:pattern-starts-with:...': 83,
+            'lead:pattern-starts-with:../': 180, 'lead:pattern-starts-with:./': 280, 'lead:pattern-starts-with:/': 340,
+            'lead:pattern-starts-with://': 48, 'lead:pattern-starts-with:other': 270, 'lead:patterns': 1500,
+            'lead:patterns-with-wildcard': 780, 'lead:re-assigned-lists': 110, 'lead:reparse-strict': 240,
+            'lead:reparse-strict=False': 100, 'lead:stale-distinguishing-name': 410, 'nontrivial:hit': 180000,
+            'nontrivial:near-miss': 230000},
+    },
+    'thorough': {
+        'nontrivial': 2700000,
+        'M': {
+            'M.match': 24000000, 'M.error': 850000, 'M.stale': 560000, 'M.cmt.str.order': 30000, 'M.cmt.str.files': 89000,
+            'M.cmt.str.find': 160000, 'M.cmt.order': 30000, 'M.cmt.files': 89000, 'M.cmt.find': 160000,
+            'M.cmt.same': 160000, 'M.lead.files': 70000, 'M.lead.find': 250000, 'M.lead.reparse': 10000,
+            'M.lead.reparse.find': 180000},
+        'C': {
+            'cmt-find:last-of-several-matching': 33000, 'cmt-find:none-matches': 53000,
+            'cmt-find:one-paragraph-matches': 74000, 'cmt-find:resolves-to-paragraph-with-multi-line-files-field': 50000,
+            'cmt-find:several-paragraphs-match': 33000, 'cmt:comment-lines': 280000, 'cmt:documents': 30000,
+            'cmt:matches-observed/bytes-source': 490000, 'cmt:matches-observed/str-source': 490000,
+            'cmt:no-end-of-line-after-last-line': 4500, 'cmt:pattern-containing-#-that-is-not-a-comment': 5000,
+            'cmt:position:after-last-field-of-paragraph': 8200, 'cmt:position:after-last-paragraph': 10000,
+            'cmt:position:before-first-field-of-paragraph': 13000, 'cmt:position:between-fields': 17000,
+            'cmt:position:between-files-field-and-next-field': 11000,
+            'cmt:position:comment-only-block-between-paragraphs': 39000, 'cmt:position:commented-out-field-line': 29000,
+            'cmt:position:commented-out-field-line-inside-files-field': 16000, 'cmt:position:inside-files-field': 45000,
+            'cmt:position:inside-other-multi-line-field': 3900, 'cmt:position:top-of-file': 5700,
+            'cmt:source:bytes-buffered': 1700, 'cmt:source:bytes-gen': 3500, 'cmt:source:bytes-iter': 1800,
+            'cmt:source:bytes-list': 5300, 'cmt:source:bytes-list-noeol': 1700, 'cmt:source:bytes-tuple': 1700,
+            'cmt:source:bytes-whole': 1700, 'cmt:source:bytesio': 5100, 'cmt:source:disk-rb': 5300,
+            'cmt:source:disk-rb-raw': 1700, 'cmt:strict': 19000, 'cmt:strict=False': 10000,
+            'lead-find:last-of-several-matching-through-pattern-starting-with-dot-or-slash': 17000,
+            'lead-find:name-starting-with-dot-or-slash-resolves-to-none': 61000,
+            'lead-find:name-without-leading-dot-or-slash-resolves-to-a-paragraph': 14000, 'lead-find:none-matches': 210000,
+            'lead-find:one-paragraph-matches': 170000,
+            'lead-find:resolves-through-pattern-starting-with-dot-or-slash': 54000,
+            'lead-find:several-paragraphs-match': 51000, 'lead:documents': 10000, 'lead:dump-returned': 5400,
+            'lead:dump-written-to-file-object': 5400, 'lead:handed-over-as:list': 23000, 'lead:handed-over-as:tuple': 6800,
+            'lead:matches-observed/after-dump-and-reparse': 540000, 'lead:matches-observed/built-through-api': 540000,
+            'lead:matches-observed/re-assigned': 190000, 'lead:name-starts-with:.': 24000,
+            'lead:name-starts-with:..': 7400, 'lead:name-starts-with:...': 10000, 'lead:name-starts-with:../': 22000,
+            'lead:name-starts-with:./': 30000, 'lead:name-starts-with:/': 44000, 'lead:name-starts-with://': 11000,
+            'lead:name-starts-with:other': 41000, 'lead:name:changed-by-reassignment': 4900, 'lead:name:edited': 10000,
+            'lead:name:fixed-probe': 18000, 'lead:name:leading-characters-added': 41000,
+            'lead:name:leading-characters-stripped': 76000, 'lead:name:whole-pattern': 39000, 'lead:nontrivial': 520000,
+            'lead:oracle-cross-checked-with-distance-dp': 610000, 'lead:paragraph-via:assign': 4500,
+            'lead:paragraph-via:assign-in-doc': 4500, 'lead:paragraph-via:create': 20000,
+            'lead:pattern-starts-with:.': 9900, 'lead:pattern-starts-with:..': 2400, 'lead:pattern-starts-with:...': 3800,
+            'lead:pattern-starts-with:../': 7700, 'lead:pattern-starts-with:./': 12000,
+            'lead:pattern-starts-with:/': 13000, 'lead:pattern-starts-with://': 2000,
+            'lead:pattern-starts-with:other': 10000, 'lead:patterns': 62000, 'lead:patterns-with-wildcard': 33000,
+            'lead:re-assigned-lists': 3700, 'lead:reparse-strict': 7600, 'lead:reparse-strict=False': 3300,
+            'lead:stale-distinguishing-name': 13000, 'nontrivial:hit': 7500000, 'nontrivial:near-miss': 9800000},
+    },
+}
+for _t, _d in _R7_FLOORS.items():
+    FLOORS[_t]['nontrivial'] = _d['nontrivial']
+    FLOORS[_t]['monitors'].update(_d['M'])
+    FLOORS[_t]['counters'].update(_d['C'])
+
 LEVEL_TEXT = ('Runtime monitoring: seeded hostile pattern lists and near-miss names (literal expansions of the patterns with '
               '0..2 single-character edits), bounded-exhaustive sweeps of small pattern/name spaces, parsed and built '
               'documents with several Files paragraphs (also with whitespace-only separators, with comment lines and handed over '
